@@ -73,17 +73,23 @@ KeyStaticallyIn(key, o, env) == o.ix # <<>> /\ M3(VStr(key), o.ix[1].kt, env, {}
 PropIdx(o, key) == CHOOSE i \in DOMAIN o.ps : o.ps[i].key = key
 HasProp(o, key) == \E i \in DOMAIN o.ps : o.ps[i].key = key
 
+\* a property of one member whose key also falls under the other member's index signature: when the key is present its
+\* value - also a nullish one, which an optional property alone would admit - must be a value of the index signature too
+\* (field nn: "a present nullish value needs the type check")
+UnderIx(p, vt) == IF p.opt THEN [key |-> p.key, ty |-> Inter(<<Uni(<<p.ty, TNull, TUndef>>), vt>>), opt |-> TRUE, nn |-> TRUE]
+                  ELSE Prop(p.key, Inter(<<p.ty, vt>>), FALSE)
+
 MergeObj(a, b, env) ==
   LET fromA == [i \in DOMAIN a.ps |->
                  LET p == a.ps[i] IN
                  IF HasProp(b, p.key)
                  THEN LET q == b.ps[PropIdx(b, p.key)] IN Prop(p.key, Inter(<<p.ty, q.ty>>), p.opt /\ q.opt)
-                 ELSE IF KeyStaticallyIn(p.key, b, env) THEN Prop(p.key, Inter(<<p.ty, b.ix[1].vt>>), p.opt)
+                 ELSE IF KeyStaticallyIn(p.key, b, env) THEN UnderIx(p, b.ix[1].vt)
                  ELSE p]
       onlyB == SelectSeq(b.ps, LAMBDA q : ~HasProp(a, q.key))
       fromB == [i \in DOMAIN onlyB |->
                  LET q == onlyB[i] IN
-                 IF KeyStaticallyIn(q.key, a, env) THEN Prop(q.key, Inter(<<q.ty, a.ix[1].vt>>), q.opt) ELSE q]
+                 IF KeyStaticallyIn(q.key, a, env) THEN UnderIx(q, a.ix[1].vt) ELSE q]
       ix == IF a.ix = <<>> THEN b.ix ELSE IF b.ix = <<>> THEN a.ix
             ELSE <<Ix(Inter(<<a.ix[1].kt, b.ix[1].kt>>), Inter(<<a.ix[1].vt, b.ix[1].vt>>))>>
   IN Obj(fromA \o fromB, ix)
@@ -117,7 +123,8 @@ ObjM3(v, T, env, D, s) ==
   ELSE
     LET declared == {T.ps[i].key : i \in DOMAIN T.ps}
         propV == { LET p == T.ps[i]  g == Get(v, p.key) IN
-                   IF p.opt THEN Or3({B3(IsNullish(g)), M3(g, p.ty, env, D, s)})
+                   IF p.opt /\ "nn" \in DOMAIN p THEN (IF HasKey(v, p.key) THEN M3(g, p.ty, env, D, s) ELSE "T")
+                   ELSE IF p.opt THEN Or3({B3(IsNullish(g)), M3(g, p.ty, env, D, s)})
                    ELSE IF HasKey(v, p.key) THEN M3(g, p.ty, env, D, s)
                    ELSE IF M3(VUndef, p.ty, env, D, s) = "F" THEN "F" ELSE "X"   \* required, absent, undefined allowed: contested
                  : i \in DOMAIN T.ps }
